@@ -685,6 +685,12 @@ def run_model(U, cases, hdrs, ops_of, workdir, tag):
         for tid in tids:
             cs = by_tid[tid]
             lines.append("T %s %s" % (tid, model_ty(U, cs[0].t)))
+            t0 = cs[0].t
+            if t0[0] == "adt" and U.defs[t0[1]].tparams and U.defs[t0[1]].copy != "zero" and not getattr(U.defs[t0[1]], "liar", False) \
+                    and not any(getattr(c, "liar", False) for c in cs):
+                g = gdef_sexp(U, U.defs[t0[1]])
+                if g is not None:
+                    lines.append("G g%s %s %s %s" % (tid, tid, g, " ".join(model_ty(U, a) for a in t0[2])))
             for c in cs:
                 if c.cid not in hdrs or not ops_of(c):
                     continue
